@@ -8,11 +8,16 @@ PROP = "C01"
 def specs(tier):
     static = A.hypergraph_static() + A.hypergraph_deviant()
     gens = [A.gen_member_removals, A.gen_swaps, A.gen_shuffles]
+    # the same vocabulary over labels / IDs of other types (tuple, string, float; tuple, string, numpy-integer, frozenset, bytes)
+    exotic = explore.Spec("hypergraph-histories-exotic-labels",
+                          ["xgi.Hypergraph()", "xgi.Hypergraph({ET: [TA, SB], 0: [SB, FC], ES: [FC]})"], A.hypergraph_exotic(),
+                          [A.gen_member_removals, A.gen_swaps], invariants=[oracles.undirected_incidence],
+                          depth=3, dev_bound=1 if tier == "quick" else 2, namespace=histcheck.base_namespace)
     if tier == "quick":
         return [explore.Spec("hypergraph-histories", histcheck.SEEDS_H, static, gens,
                              invariants=[oracles.undirected_incidence], depth=3, dev_bound=1,
-                             namespace=histcheck.base_namespace)]
-    return [
+                             namespace=histcheck.base_namespace), exotic]
+    return [exotic,
         explore.Spec("hypergraph-histories", histcheck.SEEDS_H, static, gens, invariants=[oracles.undirected_incidence],
                      depth=3, dev_bound=2, namespace=histcheck.base_namespace),
         explore.Spec("hypergraph-histories-deep", histcheck.SEEDS_H[:2], A.hypergraph_trim(),
